@@ -8,6 +8,7 @@ import (
 	"net/http"
 	"net/url"
 	"reflect"
+	"sort"
 	"strings"
 	"sync"
 	"testing"
@@ -175,6 +176,7 @@ func c20prop(r *simkit.Run) {
 	sinkFaults := 0
 	layers := make([]*layer, depth)
 	bufferAbove := false
+	stickyNames := map[string]bool{} // affinity cookies of sticky balancers in the stack: their documented addition
 	for i, k := range names {
 		l := &layer{kind: k}
 		layers[i] = l
@@ -217,7 +219,13 @@ func c20prop(r *simkit.Run) {
 			l.cb = cb
 			h = cb
 		case "roundrobin":
-			rr, err := roundrobin.New(h)
+			var lbOpts []roundrobin.LBOption
+			if rapid.IntRange(0, 2).Draw(rt, "sticky") == 0 {
+				name := fmt.Sprintf("aff%d", i)
+				lbOpts = append(lbOpts, roundrobin.EnableStickySession(roundrobin.NewStickySession(name)))
+				stickyNames[name] = true
+			}
+			rr, err := roundrobin.New(h, lbOpts...)
 			must(err)
 			must(rr.UpsertServer(mustURL(fmt.Sprintf("http://srv%d-a", i))))
 			must(rr.UpsertServer(mustURL(fmt.Sprintf("http://srv%d-b", i)), roundrobin.Weight(2)))
@@ -226,7 +234,13 @@ func c20prop(r *simkit.Run) {
 		case "rebalancer":
 			rr, err := roundrobin.New(h)
 			must(err)
-			rb, err := roundrobin.NewRebalancer(rr)
+			var rbOpts []roundrobin.RebalancerOption
+			if rapid.IntRange(0, 2).Draw(rt, "sticky") == 0 {
+				name := fmt.Sprintf("aff%d", i)
+				rbOpts = append(rbOpts, roundrobin.RebalancerStickySession(roundrobin.NewStickySession(name)))
+				stickyNames[name] = true
+			}
+			rb, err := roundrobin.NewRebalancer(rr, rbOpts...)
 			must(err)
 			must(rb.UpsertServer(mustURL(fmt.Sprintf("http://srv%d-a", i))))
 			must(rb.UpsertServer(mustURL(fmt.Sprintf("http://srv%d-b", i))))
@@ -412,7 +426,14 @@ func c20prop(r *simkit.Run) {
 			if !bytes.Equal(rec.Body.Bytes(), bare.Body.Bytes()) {
 				r.Fail("body", "client got %d body bytes, the handler alone produces %d %s", rec.Body.Len(), bare.Body.Len(), ctxt())
 			}
-			if !sameHeaders(rec, bare) {
+			seen, missing := clientHeaders(rec), ""
+			if len(stickyNames) > 0 {
+				seen, missing = withoutAffinity(seen, stickyNames)
+			}
+			if missing != "" {
+				r.Fail("affinity-cookie-lost", "the sticky balancer's cookie %s is not among the Set-Cookie headers the client saw exactly once: %v (the handler alone sets %v) %s", missing, clientHeaders(rec)["Set-Cookie"], clientHeaders(bare)["Set-Cookie"], ctxt())
+			}
+			if !reflect.DeepEqual(seen, clientHeaders(bare)) {
 				r.Fail("headers", "client saw headers %v, the handler alone produces %v %s", rec.Snapshot, bare.Snapshot, ctxt())
 			}
 			if !bufferAbove && !reflect.DeepEqual(rec.Informational, bare.Informational) {
@@ -453,6 +474,9 @@ func c20prop(r *simkit.Run) {
 	if bufferAbove {
 		r.Probe("buffer-in-stack")
 	}
+	if len(stickyNames) > 0 {
+		r.Probe("sticky-balancer-in-stack")
+	}
 	for i := 0; i < sinkFaults; i++ {
 		r.Fault("trace-sink-write-error")
 	}
@@ -490,6 +514,41 @@ func clientHeaders(r *simkit.Recorder) map[string][]string {
 		}
 	}
 	return out
+}
+
+// withoutAffinity removes the affinity cookies of the stack's sticky balancers (each is expected exactly
+// once: the requests carry no cookie) and returns the name of one that is missing or repeated.
+func withoutAffinity(h map[string][]string, names map[string]bool) (map[string][]string, string) {
+	out := map[string][]string{}
+	count := map[string]int{}
+	for k, v := range h {
+		if k != "Set-Cookie" {
+			out[k] = v
+			continue
+		}
+		var rest []string
+		for _, c := range v {
+			if i := strings.IndexByte(c, '='); i > 0 && names[c[:i]] {
+				count[c[:i]]++
+				continue
+			}
+			rest = append(rest, c)
+		}
+		if len(rest) > 0 {
+			out[k] = rest
+		}
+	}
+	var keys []string
+	for n := range names {
+		keys = append(keys, n)
+	}
+	sort.Strings(keys)
+	for _, n := range keys {
+		if count[n] != 1 {
+			return out, n
+		}
+	}
+	return out, ""
 }
 
 func sameHeaders(a, b *simkit.Recorder) bool {
